@@ -23,7 +23,7 @@ StillOpen(n) == n \notin Repaired
 Reached(via, opts) ==
    /\ StillOpen(1) => ~HasEdge(via, "operation", "callbacks")
    /\ StillOpen(2) => ~(HasEdge(via, "pathItem", "servers") \/ HasEdge(via, "operation", "servers"))
-   /\ StillOpen(3) => ~HasEdge(via, "mediaType", "encoding")
+   /\ StillOpen(3) => ~HasEdge(via, "encoding", "headers")
    /\ StillOpen(4) => ~HasEdge(via, "header", "examples")
    /\ StillOpen(5) => ~(HasEdge(via, "schema", "discriminator") \/ HasEdge(via, "schema", "xml"))
 
